@@ -965,13 +965,14 @@ class ArmV6:
                 print('unpredictable')
             if bit_at(self.registers.vtcr.sl0, 1) == 0b1:
                 print('unpredictable')
-            if substring(self.registers.vttbr, ba_lower_bound - 1, 3) != 0:
-                print('unpredictable')
-            if t0_size == -8 or substring(ia, 39, 32 - t0_size) == 0:
-                current_level = 2 - s_level
-                base_address = substring(self.registers.vttbr, 39, ba_lower_bound) << ba_lower_bound
-                base_found = True
-                start_bit = 31 - t0_size
+            if ba_lower_bound >= 0:
+                if substring(self.registers.vttbr, ba_lower_bound - 1, 3) != 0:
+                    print('unpredictable')
+                if t0_size == -8 or substring(ia, 39, 32 - t0_size) == 0:
+                    current_level = 2 - s_level
+                    base_address = substring(self.registers.vttbr, 39, ba_lower_bound) << ba_lower_bound
+                    base_found = True
+                    start_bit = 31 - t0_size
             lookup_secure = False
             walkaddr.memattrs.type = MemType.NORMAL
             hintsattrs = self.convert_attrs_hints(self.registers.vtcr.irgn0)
